@@ -157,6 +157,10 @@ func (g *Generator) MakeData(srcTypeName string) (any, bool) {
 		g.CommonFlags().CmdLine,
 		g.CommonFlags().Version,
 	)
+	g.srcCtorParams = nil
+	g.destCtorParams = nil
+	g.getsetMethods = nil
+	g.destGetSetMethods = nil
 
 	var destTypeName string
 	if g.flags.destTypes != nil {
